@@ -3,6 +3,9 @@ import LyModel.Valid.Hist
 import LyModel.Valid.Ops
 import LyModel.Valid.ValApply
 import LyModel.Valid.LemmasCompletionObs
+import LyModel.Valid.FullSaneB
+import LyModel.Valid.LemmasPerm
+import LyModel.Valid.FullUniq
 /-! driver ops of component `valid` (C02, C07): see harness/api_val.c and harness/api_norm.c for the protocol -/
 namespace LyModel.Valid.Drv
 open LyModel LyModel.Tree
@@ -104,6 +107,24 @@ def handle (op : String) (args : List String) : String :=
         "ok " ++ toString ks.eraseDups.length ++ String.join (ks.eraseDups.map (" " ++ ·.name)) ++ " | " ++ route .input ++ " " ++ route .output
           ++ " " ++ route .notif ++ " | " ++ toString k0.eraseDups.length ++ String.join (k0.eraseDups.map (" " ++ ·.name))
       | none => "err BadTree"
+  | "hyp", [dsl, xdsl, opts, dump] =>
+    -- which hypotheses of the C02 theorems (Props/C02.lean, Props/C02Full.lean) the case satisfies (model only): the table / tree-view
+    -- consistency, `PlainSane` (plain theorem), `FullSane` (full schema language), no `unique` / `UniqPathsOk` / `UniqueWF`, the repaired `lyd_new_implicit`,
+    -- `KeysFirst`, the instance as the theorems want it (`goodL`: no default-flagged node), fuel and length bounds
+    withX dsl xdsl fun X =>
+      match opts.toNat?, forestOfHex X.base dump with
+      | some on, some f =>
+        let o := VOpts.ofNat on
+        let t := canon X.base (heightL f + 1) (freshL X.base f)
+        let wf := lookupOkB X && infoOkB X && nodeLookupOkB X
+        -- the hypotheses about `unique` statements: paths (`UniqPathsOk`), the repaired F175, and for the order theorem `UniqueWF`
+        let uq := uniqPathsOkB X && !X.q.uniqueDefaultAlways
+        let bounds := decide (t.length ≤ uint32Max) && decide (sheightL X.top ≤ walkFuel X t)
+        "ok wf=" ++ b01 wf ++ " plain=" ++ b01 (plainSaneB X) ++ " full=" ++ b01 (fullSaneB X o) ++ " nouniq=" ++ b01 X.uniques.isEmpty
+          ++ " uniqok=" ++ b01 uq ++ " uniqwf=" ++ b01 (decide (UniqueWF X))
+          ++ " fixed=" ++ b01 (!X.q.implicitInnerCase) ++ " keysfirst=" ++ b01 (keysFirstB X.base) ++ " good=" ++ b01 (goodL X X.top t)
+          ++ " bounds=" ++ b01 bounds ++ " oper=" ++ b01 o.operational
+      | _, _ => "err BadTree"
   | _, _ => "err BadOp"
 
 end LyModel.Valid.Drv
